@@ -9,6 +9,7 @@
   short-write pattern, a virtual clock in milliseconds.
 -/
 import WS.Model.Frame
+import WS.Spec.Unicode
 namespace WS.Model
 
 /-! ## L0 — the scripted socket -/
@@ -287,6 +288,29 @@ def Conn.send (c : Conn) (payload : Bytes) (opcode : Nat) : Except Exn Nat × Co
 
 def Conn.ping (c : Conn) (payload : Bytes) := c.send payload Gen.opcodePing
 def Conn.pong (c : Conn) (payload : Bytes) := c.send payload Gen.opcodePong
+
+/-- `str.encode("utf-8")` of a Python str given by its code points: Table 3-6 of the Unicode Standard for every
+    scalar value; a str holding a lone surrogate cannot be encoded (UnicodeEncodeError). -/
+def encodeStr (cps : List Nat) : Except Exn Bytes :=
+  if cps.all (fun c => decide (Spec.IsScalar c)) then .ok (cps.flatMap Spec.encodeScalar)
+  else .error (.internal "UnicodeEncodeError")
+
+/-- `WebSocket.send(payload: str)` (opcode TEXT): `ABNF.create_frame` encodes a str payload as UTF-8. -/
+def Conn.sendText (c : Conn) (cps : List Nat) : Except Exn Nat × Conn :=
+  match encodeStr cps with
+  | .error e => (.error e, c)
+  | .ok p => c.send p Gen.opcodeText
+
+/-- `WebSocket.ping(payload: str)` / `pong(payload: str)`: `payload.encode("utf-8")` first. -/
+def Conn.pingText (c : Conn) (cps : List Nat) : Except Exn Nat × Conn :=
+  match encodeStr cps with
+  | .error e => (.error e, c)
+  | .ok p => c.ping p
+
+def Conn.pongText (c : Conn) (cps : List Nat) : Except Exn Nat × Conn :=
+  match encodeStr cps with
+  | .error e => (.error e, c)
+  | .ok p => c.pong p
 
 /-- `WebSocket.send_close(status, reason)` -/
 def Conn.sendClose (c : Conn) (status : Int) (reason : Bytes) : Except Exn Nat × Conn :=
